@@ -660,8 +660,9 @@ fn run_case1(case: &Value, out: &mut dyn Write, forced: Option<(i32, i32, f64)>)
                     let m2keys: Vec<&str> = f.m.keys().filter_map(|k| k.strip_prefix("m2.")).collect();
                     // DHW renewable fraction (cte::fraccion_renovable_acs_nrb), a ratio in millionths
                     let acs = match catch_unwind(AssertUnwindSafe(|| cte::fraccion_renovable_acs_nrb(&ep))) {
-                        Ok(Ok(v)) if v.is_finite() => json!({"ok": true, "v": ((v as f64) * 1e6).round().clamp(-2.0e9, 2.0e9) as i64}),
-                        Ok(Ok(_)) => json!({"ok": false, "err": "NonFinite"}),
+                        Ok(Ok(v)) if v.is_finite() => json!({"ok": true, "v": ((v as f64) * 1e6).round().clamp(-2.0e9, 2.0e9) as i64, "nonfinite": false}),
+                        // a number that is not finite (0/0 with an all-zero supply factor ...): still "a number", flagged
+                        Ok(Ok(_)) => json!({"ok": true, "v": 0, "nonfinite": true}),
                         Ok(Err(e)) => json!({"ok": false, "err": err_kind(&e)}),
                         Err(_) => json!({"ok": false, "err": "Panic"}),
                     };
